@@ -43,6 +43,7 @@ THEOREMS = [
     "CrCube.C13.welch_def",
     "CrCube.C13.welch_subtotal_nan",
     "CrCube.C13.welch_antisymmetric",
+    "CrCube.C13.overlap_def",
     "CrCube.C13.overlap_antisymmetric",
     "CrCube.C13.overlap_self_zero",
 ]
@@ -140,7 +141,9 @@ SD_VALS = [F(0), F(1, 4), F(1, 2), F(1), F(1), F(3, 2), F(2), F(3)]
 
 def gen_means_case(rng):
     design = rng.choice([("cat", "cat")] * 5 + [("cat", "mr")] * 2 + [("mr", "cat")] * 2)
-    vars_ = [gen.gen_var(rng, k, "v%d" % i, n=rng.randint(1, 4), numeric="none") for i, k in enumerate(design)]
+    few = rng.random() < 0.3          # few base columns, several inserted ones (negative indexes beyond the base width)
+    vars_ = [gen.gen_var(rng, k, "v%d" % i, n=(rng.randint(1, 2) if (few and i == 1) else rng.randint(1, 4)),
+                         numeric="none") for i, k in enumerate(design)]
     axes = U.axes_of(vars_)
     ncell = 1
     for s in gen.raw_shape(vars_):
@@ -150,9 +153,9 @@ def gen_means_case(rng):
     data = {"mean": cell(MEAN_VALS, 0.1), "stddev": cell(SD_VALS, 0.1),
             "n": [rng.choice([0, 1, 1, 2, 3, 5, 8, 13, 40]) for _ in range(ncell)]}
     tr = {}
-    if rng.random() < 0.7:
+    if rng.random() < 0.7 or few:
         tr["rows_dimension"] = U.gen_dim_transforms(rng, axes[0], p_prune=0.0)
-        tr["columns_dimension"] = U.gen_dim_transforms(rng, axes[1], p_prune=0.0)
+        tr["columns_dimension"] = U.gen_dim_transforms(rng, axes[1], p_prune=0.0, p_ins=1.0 if few else 0.7)
     pw = gen_pw_transform(rng)
     if pw:
         tr["pairwise_indices"] = pw
@@ -160,11 +163,11 @@ def gen_means_case(rng):
 
 
 def gen_overlap_case(rng):
-    design = rng.choice([("cat", "mr")] * 3 + [("mr", "mr")])
-    vars_ = [gen.gen_var(rng, k, "v%d" % i, n=rng.randint(1, 4), numeric="none") for i, k in enumerate(design)]
+    design = rng.choice([("cat", "mr")] * 2 + [("mr", "mr")])
+    vars_ = [gen.gen_var(rng, k, "v%d" % i, n=rng.choice([1, 2, 2, 3, 3, 4]), numeric="none") for i, k in enumerate(design)]
     axes = U.axes_of(vars_)
     weighted = rng.random() < 0.5
-    sv = gen.gen_survey(rng, vars_, weighted=weighted, n_resp=rng.choice([0, 3, 8, 15, 30, 45]), skew=False)
+    sv = gen.gen_survey(rng, vars_, weighted=weighted, n_resp=rng.choice([0, 5, 15, 30, 45, 60, 80]), skew=False)
     tr = {}
     if rng.random() < 0.7:
         tr["rows_dimension"] = U.gen_dim_transforms(rng, axes[0], p_prune=0.0)
@@ -179,7 +182,7 @@ def gen_overlap_case(rng):
 def generate(ctx):
     rng = ctx.rng
     out = []
-    for _ in range(ctx.n(150, 2500)):
+    for _ in range(ctx.n(240, 6000)):
         r = rng.random()
         if r < 0.68:
             out.append(gen_counts_case(rng))
@@ -539,6 +542,8 @@ def evaluate(case, louts, ctx):
     if exp_err is not None:
         ctx.count("alpha:error")
         for nm, got in ((idx_name, impl_idx), (alt_name, impl_alt)):
+            if nm == idx_name and len(co) == 0:
+                continue      # alpha is only evaluated per displayed column: nothing to evaluate, nothing raised
             if not (isinstance(got, dict) and got.get("raises") == exp_err):
                 findings.append({"kind": "model", "locus": "seam.alpha.error", "detail":
                                  "%s with alpha=%r: expected %s, got %r" % (nm, _alpha_arg(case), exp_err, got)})
